@@ -435,7 +435,11 @@ func c19Inheritance(p *Prog, r *Report) {
 	nd := q.Fn(R, "internal/core", "socket", "NewDialer")
 	if nd.OK() {
 		for fld, src := range map[string]string{"reconnMinTime": "recv.reconnMinTime", "reconnMaxTime": "recv.reconnMaxTime", "asynch": "recv.dialAsynch"} {
-			st := nd.Ev("store", "$complit."+fld)
+			// (the construction itself: own stores, or those of a single-use constructor)
+			st := nd.EvOwn("store", "$complit."+fld)
+			if len(st) == 0 {
+				st = nd.Ev("store", "$complit."+fld)
+			}
 			r.Check(len(st) == 1 && st[0].Args[0] == src, R, "NewDialer/"+fld, st.Pos(p), fld+" = socket's "+src, "NewDialer does not inherit "+fld+" from "+src)
 		}
 	}
@@ -821,10 +825,18 @@ func gatedOptionFlags(p *Prog, r *Report, R string) {
 		}
 		n++
 		ok := false
+		var raises Sel
 		for _, f := range so.Ev("store", flag) {
-			if f.Args[0] == "true" && f.In.Block() == e.In.Block() {
-				ok = true
+			if f.Args[0] == "true" {
+				raises = append(raises, f)
+				if f.In.Block() == e.In.Block() || evDominates(f, e) {
+					ok = true
+				}
 			}
+		}
+		if !ok && len(raises) > 0 {
+			// raised after the store, on every path to the return
+			ok, _ = q.mustPass(e.In, raises)
 		}
 		r.Check(ok, R, "SetOption/"+e.What+"->"+flag, p.InstrPos(e.In), e.What+" stored together with "+flag+" = true", "SetOption stores "+e.What+" without setting "+flag+", the flag under which Listen applies it: the accepted value has no effect (and whatever flag is raised instead applies another setting with its zero value)")
 	}
